@@ -140,7 +140,7 @@ def setInt (name : String) (v : Int) (c : Ctx) : Ctx × Int :=
   | some (ws, e) => ({ c with opts := applyWrites ws c.opts, engine := e.getD c.engine }, OK)
 
 /-- value returned by `get_int` for a field whose content is not a variant of its enum (unreachable:
-    `Chewing.C16.wellTyped_reachable`); Rust's `match` is exhaustive, so there is no such path in the code -/
+    `Chewing.C16.getters_in_range`); Rust's `match` is exhaustive, so there is no such path in the code -/
 def illTyped : Int := -2
 
 def readRule (f : Nat) (g : GetRule) (c : Ctx) : Int :=
